@@ -21,7 +21,7 @@ import zlib
 
 import torch
 
-from . import common, opbuild as ob, c03_idx as ix, c03_lib as lib, c03_x as xl
+from . import common, opbuild as ob, c03_idx as ix, c03_lib as lib, c03_x as xl, c03_big as big
 from .common import zlit, zlist, natlist
 
 PROP = "C03"
@@ -1295,7 +1295,8 @@ def run(ctx):
                lib.stage_front(ctx, rng, jobs, run_index, tlit_of, idx_lit, otensor_lit),
                lib.stage_classes(ctx, rng, jobs),
                xl.stage_x(ctx, random.Random(ctx.seed * 31 + 5), jobs, instances(ctx)),
-               xl.stage_g(ctx, random.Random(ctx.seed * 31 + 6), jobs)]
+               xl.stage_g(ctx, random.Random(ctx.seed * 31 + 6), jobs),
+               big.stage_large(ctx, random.Random(ctx.seed * 31 + 7), jobs)]
         jobs.run(ctx)
         for d in lst:
             cov.update(d)
@@ -1307,6 +1308,8 @@ def run(ctx):
     t0 = time.time()
     cov.update(stage_diag(ctx, rng))
     cov.update(stage_perm(ctx, rng))
+    import sys
+    cov.update(big.stage_alias(ctx, random.Random(ctx.seed * 31 + 8), instances(ctx), sys.modules[__name__]))
     tm["diag"] = round(time.time() - t0, 1)
     cov["stage_seconds"] = tm
     import linear_operator
@@ -1334,6 +1337,11 @@ def run(ctx):
 
 def replay(rp):
     torch.set_num_threads(1)
+    if rp.get("kind", "").startswith("aliased-index"):
+        import sys
+        return big.replay_alias(rp, sys.modules[__name__])
+    if rp.get("kind", "").startswith("large-index"):
+        return big.replay_large(rp)
     if "recipe" in rp:
         from linear_operator import settings
         rc = rp["recipe"]
